@@ -28,6 +28,8 @@ func runC03(ctx *core.Ctx) {
 
 	searchRules(ctx, parse)
 	inputReadOnly(ctx, "RO", []*ssa.Function{parse, parseFile})
+	scanFromCandidate(ctx, "SCAN")
+	parseFileRaw(ctx, "RAW")
 	ctx.Rule("FWD", "Format is the reference implementation: the package's Format does nothing but call golang.org/x/tools/txtar.Format on its argument and return the result", 1)
 	if fm := ctx.Need("FWD", "txtar", "Format"); fm != nil {
 		g := graph(ctx.P, fm)
@@ -313,11 +315,34 @@ func inputReadOnly(ctx *core.Ctx, rule string, entries []*ssa.Function) {
 	for _, f := range reachableMod(p, entries, nil) {
 		g := graph(p, f)
 		ctx.Seen(f)
+		// may share its backing array with a byte-slice parameter: the parameter, a re-slice,
+		// a merge, or the result of appending onto such a value
+		var aliases func(v ssa.Value, seen map[ssa.Value]bool) bool
+		aliases = func(v ssa.Value, seen map[ssa.Value]bool) bool {
+			if seen[v] {
+				return false
+			}
+			seen[v] = true
+			switch x := v.(type) {
+			case *ssa.Parameter:
+				return isByteSlice(x.Type())
+			case *ssa.Slice:
+				return aliases(x.X, seen)
+			case *ssa.Phi:
+				for _, e := range x.Edges {
+					if aliases(e, seen) {
+						return true
+					}
+				}
+			case *ssa.Call:
+				if isBuiltinCall(x, "append") && len(x.Call.Args) > 0 {
+					return aliases(x.Call.Args[0], seen)
+				}
+			}
+			return false
+		}
 		isParamSlice := func(v ssa.Value) bool {
-			return isByteSlice(v.Type()) && ssax.DerivedFrom(v, func(x ssa.Value) bool {
-				_, ok := x.(*ssa.Parameter)
-				return ok && isByteSlice(x.Type())
-			}, nil)
+			return isByteSlice(v.Type()) && aliases(v, map[ssa.Value]bool{})
 		}
 		g.Instrs(func(i ssa.Instruction) {
 			switch x := i.(type) {
@@ -342,5 +367,94 @@ func inputReadOnly(ctx *core.Ctx, rule string, entries []*ssa.Function) {
 	}
 	if bad == 0 {
 		ctx.OK(rule, "txtar#input-read-only", token.NoPos, "%d append/copy/element-store sites examined, none writes through a parameter", n)
+	}
+}
+
+// scanFromCandidate: in the marker search the library search for the next
+// "newline + marker start" begins at the very position whose candidate was just
+// rejected. The newline that precedes the next marker may be the byte at that
+// position (a body that starts with an empty line), so starting one byte later
+// skips a marker.
+func scanFromCandidate(ctx *core.Ctx, rule string) {
+	p := ctx.P
+	ctx.Rule(rule, "no byte is skipped between candidates: the haystack of the search for the next line-start marker is the input re-sliced at the same position at which the marker test was just applied (not one past it), because the newline introducing the next marker can be the first byte of the rejected candidate", 1)
+	parse := ctx.Need(rule, "txtar", "Parse")
+	if parse == nil {
+		return
+	}
+	var search *ssa.Function
+	for f := range tupleCallees(p, parse) {
+		search = f
+	}
+	if search == nil {
+		ctx.Unknown(rule, "txtar.Parse#search", parse.Pos(), "marker-search function not found")
+		return
+	}
+	g := graph(p, search)
+	data := search.Params[0]
+	lowOf := func(v ssa.Value) (ssa.Value, bool) {
+		if v == ssa.Value(data) {
+			return nil, true
+		}
+		sl, ok := v.(*ssa.Slice)
+		if !ok || sl.X != ssa.Value(data) || sl.High != nil {
+			return nil, false
+		}
+		return sl.Low, true
+	}
+	n := 0
+	for _, c := range g.Calls("bytes.Index") {
+		n++
+		// the candidate test of the same loop
+		var testLow ssa.Value
+		testFound := false
+		l, inLoop := innermostLoop(g, c.Block().Index)
+		g.Instrs(func(i ssa.Instruction) {
+			tc, ok := i.(*ssa.Call)
+			if !ok || !inLoop || !l.Blocks[tc.Block().Index] {
+				return
+			}
+			if cal := tc.Call.StaticCallee(); cal != nil && core.InModule(cal) && cal != search && len(tc.Call.Args) >= 1 {
+				if lo, ok := lowOf(tc.Call.Args[0]); ok {
+					testLow, testFound = lo, true
+				}
+			}
+		})
+		lo, ok := lowOf(c.Call.Args[0])
+		same := ok && testFound && lo == testLow
+		ctx.Check(same, rule, shortFn(search)+"#haystack"+itoa(n), c.Pos(), "the search for the next marker start scans the input from the position of the candidate just rejected")
+	}
+	if n == 0 {
+		ctx.Unknown(rule, shortFn(search)+"#haystack", search.Pos(), "no bytes.Index call in the marker search")
+	}
+}
+
+// parseFileRaw: ParseFile hands the bytes it read to Parse as they are.
+func parseFileRaw(ctx *core.Ctx, rule string) {
+	p := ctx.P
+	ctx.Rule(rule, "ParseFile parses the file's bytes as read: the argument of Parse is the data result of the file read itself, with nothing in between (a line-ending or other normalisation changes entries that the caller will write back untouched)", 1)
+	pf := ctx.Need(rule, "txtar", "ParseFile")
+	parse := ctx.Need(rule, "txtar", "Parse")
+	if pf == nil || parse == nil {
+		return
+	}
+	g := graph(p, pf)
+	n := 0
+	for _, c := range g.Calls(ssax.FuncName(parse)) {
+		n++
+		arg := c.Call.Args[0]
+		raw := false
+		if e, ok := arg.(*ssa.Extract); ok && e.Index == 0 {
+			if rc, ok := e.Tuple.(*ssa.Call); ok {
+				switch ssax.CalleeName(&rc.Call) {
+				case "os.ReadFile", "io/ioutil.ReadFile", "io.ReadAll", "io/ioutil.ReadAll":
+					raw = true
+				}
+			}
+		}
+		ctx.Check(raw, rule, "txtar.ParseFile#raw"+itoa(n), c.Pos(), "Parse receives exactly what was read from the file")
+	}
+	if n == 0 {
+		ctx.Bad(rule, "txtar.ParseFile#raw", pf.Pos(), "ParseFile does not call Parse")
 	}
 }
